@@ -896,3 +896,164 @@ def relatives(rng, d):
         r.setdefault("needs_installer", False)
         out.append(r)
     return out
+
+
+# --------------------------------------------------------------------------
+# the same PATTERN over other coordinates (die / allocation / hard module), grids of 16 .. 100 cells
+# --------------------------------------------------------------------------
+PATTERN_SHAPES = [(4, 4), (2, 8), (6, 6), (4, 9), (3, 12), (7, 9), (8, 8), (4, 16), (5, 13), (9, 9), (10, 10), (5, 20)]
+STEPS = [1, 2, 2, 3, 4, 6]
+
+
+def line_intervals(rng, n):
+    """cell intervals [a, b) of one axis whose ends are exactly the interior lines 1 .. n-1 (and maybe 0 / n):
+    one-cell intervals at the odd positions, now and then a two-cell interval followed by the cell that closes it"""
+    out, i = [], 1
+    while i <= n - 1:
+        if i + 2 <= n - 1 and rng.random() < 0.2:
+            out += [(i, i + 2), (i + 1, i + 2)] if rng.random() < 0.5 else [(i, i + 2), (i + 1, i + 3)]
+            i += 4 if out[-1][1] == i + 3 else 3
+        else:
+            out.append((i, i + 1))
+            i += 2
+    return out
+
+
+def occupancy_pattern(rng, ncols, nrows):
+    """index rectangles (i0, j0, i1, j1), pairwise disjoint, whose sides are all the lines of the ncols x nrows grid:
+    the intervals of the longer axis are each given an interval of the other one (a generalised diagonal)"""
+    for _ in range(200):
+        xi, yi = line_intervals(rng, ncols), line_intervals(rng, nrows)
+        if len(xi) >= len(yi):
+            ys = yi + [rng.choice(yi) for _ in range(len(xi) - len(yi))]
+            rng.shuffle(ys)
+            rects = [(a[0], b[0], a[1], b[1]) for a, b in zip(xi, ys)]
+        else:
+            xs = xi + [rng.choice(xi) for _ in range(len(yi) - len(xi))]
+            rng.shuffle(xs)
+            rects = [(a[0], b[0], a[1], b[1]) for a, b in zip(xs, yi)]
+        ok = all(not (min(r[2], o[2]) > max(r[0], o[0]) and min(r[3], o[3]) > max(r[1], o[1]))
+                 for k, r in enumerate(rects) for o in rects[:k])
+        if ok and cuts_complete(ncols, nrows, rects):
+            return rects
+    return [(i, i, i + 1, i + 1) for i in range(1, min(ncols, nrows), 2)]
+
+
+def lines_of(steps, q, P):
+    out = [F(0)]
+    for s in steps:
+        out.append(out[-1] + s * q * P)
+    return out
+
+
+def coordinate_variants(rng, ncols, nrows):
+    """step vectors (sx, sy) for one index pattern: a base one; the others keep the number of lines and change where
+    they are - so the ORDER BY AREA / BY ASPECT RATIO of the rectangles spanned by the lines changes"""
+    sx = [rng.choice(STEPS) for _ in range(ncols)]
+    sy = [rng.choice(STEPS) for _ in range(nrows)]
+    out = [("base", sx, sy)]
+    out.append(("rescale", [rng.choice(STEPS) for _ in range(ncols)], [rng.choice(STEPS) for _ in range(nrows)]))
+    out.append(("rescale-x", [rng.choice(STEPS) for _ in range(ncols)], sy))
+    for nm, ax in (("wide-column", 0), ("tall-row", 1)):
+        v = [list(sx), list(sy)]
+        k = rng.choice([0, 0, len(v[ax]) - 1, rng.randrange(len(v[ax]))])
+        v[ax] = [1 if i != k else rng.choice([12, 16, 20, 24]) for i in range(len(v[ax]))]
+        v[1 - ax] = [rng.choice([1, 1, 2]) for _ in v[1 - ax]]
+        out.append((nm, v[0], v[1]))
+    if ncols == nrows:
+        out.append(("transpose", list(sy), list(sx)))
+        out.append(("transpose-wide", list(out[3][2]), list(out[3][1])))
+    out.append(("reversed", sx[::-1], sy[::-1]))
+    # one interior line moved: a step taken from one cell and given to its neighbour
+    v = list(sx)
+    if len(v) >= 2:
+        k = rng.randrange(len(v) - 1)
+        v[k], v[k + 1] = v[k] + v[k + 1] - F(1, 2), F(1, 2)
+        out.append(("line-moved", v, sy))
+    out.append(("scale", [2 * s for s in sx], [2 * s for s in sy]))
+    return out
+
+
+def pattern_family(rng, P, kind, shape=None):
+    """designs of `kind` (die / alloc / stog) that all have the SAME index pattern - the same occupancy matrix of the
+    grid of cut coordinates, the same regions / cells / rectangles in terms of line numbers - over different line
+    coordinates (a memo table keyed by the pattern alone answers the later ones with the first one's geometry).
+    Grids of more than 20 cells are compared by digest only (stream exact-large: the cost of the Coq models)."""
+    ncols, nrows = shape or rng.choice(PATTERN_SHAPES)
+    if rng.random() < 0.5:
+        ncols, nrows = nrows, ncols
+    q = rng.choice([F(1, 2), F(1), F(1)])
+    large = ncols * nrows > 20
+    out = []
+    variants = coordinate_variants(rng, ncols, nrows)
+    if kind == "die":
+        rects = occupancy_pattern(rng, ncols, nrows)
+        tagpool = rng.sample(TAGS, 3)
+        tags = [rng.choice(tagpool) for _ in rects]
+        refine = [rng.choice([1.5, 2.0, 3.0]), rng.choice([1, 4, 9])] if rng.random() < 0.3 else None
+        for nm, sx, sy in variants:
+            xs, ys = lines_of(sx, q, P), lines_of(sy, q, P)
+            if rng.random() < 0.3:
+                tags = [rng.choice(tagpool) for _ in rects]        # other kinds of regions, same cells
+            bx = [box_of_index(xs, ys, r, t) for r, t in zip(rects, tags)]
+            fx = []
+            if rng.random() < 0.15:
+                bx, fx = bx[1:], [bx[0][:4]]                        # one of them a fixed rectangle of a netlist
+            m = tag(die_design(xs[-1], ys[-1], bx, fx, "robust", refine=refine), "pattern:" + nm)
+            if large and m["stream"] == "exact":
+                m["stream"] = "exact-large"
+            out.append(m)
+    elif kind == "alloc":
+        mods = ["M1", "M2", "M3", "M4"]
+        spec = {}
+        for j in range(nrows):
+            for i in range(ncols):
+                if rng.random() < 0.92:
+                    al, left = [], F(1)
+                    for m in rng.sample(mods, rng.choice([0, 1, 1, 2])):
+                        x = rng.choice([F(1, 8), F(1, 4), F(1, 2), F(3, 4)])
+                        if x <= left:
+                            al.append([m, x])
+                            left -= x
+                    spec[(i, j)] = al
+        ops = [rng.choice([["refine", rng.choice([F(1, 4), F(1, 2), F(15, 16)]), 1], ["griddify"], ["uniform"]])
+               for _ in range(rng.choice([1, 2]))]
+        for nm, sx, sy in variants:
+            xs, ys = lines_of(sx, q, P), lines_of(sy, q, P)
+            cells = [[box_of_index(xs, ys, (i, j, i + 1, j + 1), None)[:4] + [False, False, "_"], [list(a) for a in al], 0]
+                     for (i, j), al in spec.items()]
+            m = tag(alloc_design(cells, ops, "robust"), "pattern:" + nm)
+            if large and m["stream"] == "exact":
+                m["stream"] = "exact-large"
+            out.append(m)
+    else:
+        n, k = ncols, nrows
+        r0 = rng.randrange(1, max(2, k - 1))
+        r1 = rng.randrange(r0 + 1, max(r0 + 2, k))
+        r1 = min(r1, k - 1) if k > 2 else r1
+        rects = [(1, r0, max(2, n - 1), r1)]                       # the trunk
+        used = {"n": [], "s": []}
+        for a, b in line_intervals(rng, n):
+            if b > max(2, n - 1) or a < 1:
+                continue
+            side = rng.random()
+            sd = "n" if side < 0.45 and r1 < k else "s" if side < 0.9 and r0 > 0 else None
+            if sd is None or any(min(b, d) > max(a, c) for c, d in used[sd]):
+                continue                                                     # branches of one side never overlap
+            used[sd].append((a, b))
+            if sd == "n":
+                rects.append((a, r1, b, rng.randrange(r1 + 1, k + 1)))       # north
+            else:
+                rects.append((a, rng.randrange(0, r0), b, r0))               # south
+        if rng.random() < 0.5 and n - 1 >= 2:
+            rects.append((0, r0, 1, r1))                                     # west
+        for nm, sx, sy in variants:
+            xs, ys = lines_of(sx, q, P), lines_of(sy, q, P)
+            rs = [box_of_index(xs, ys, r, None)[:4] for r in rects if r[0] < r[2] and r[1] < r[3]]
+            if len(rs) < 2:
+                continue
+            m = tag(stog_design(rs, "robust"), "pattern:" + nm)
+            if len(rs) > 8 and m["stream"] == "exact":
+                m["stream"] = "exact-large"
+            out.append(m)
+    return [m for m in out if m["dims"][0] > 0 and reaches_guard(m)]
